@@ -471,7 +471,9 @@ func (c *Ctx) signingRootHelper(rule string, fn *ssa.Function) {
 		return
 	}
 	var putData, putDomain ssa.Instruction
-	for _, ci := range Calls(hw, func(ci ssa.CallInstruction) bool { return ci.Common().IsInvoke() && ci.Common().Method.Name() == "PutBytes" }) {
+	for _, ci := range Calls(hw, func(ci ssa.CallInstruction) bool {
+		return ci.Common().IsInvoke() && ci.Common().Method.Name() == "PutBytes"
+	}) {
 		_, f, _ := an.FieldOf(ci.Common().Args[0])
 		switch f {
 		case "DataRoot":
